@@ -431,7 +431,9 @@ def run(prop, tier, seed, replay=None):
     fam = FAM[prop]
     v = vlib.Verdict(prop)
     cov = dict(mc_runs=[], samples=[], traces_validated_against_impl=0, states=0, transitions=0)
-    if not replay:
+    # VERIF_RECS_FAST=1: machinery self-tests (mutants) skip the model runs and the vacuity guard
+    fast = os.environ.get("VERIF_RECS_FAST") == "1"
+    if not replay and not fast:
         stage1(prop, tier, v, cov)
     binary = vlib.go_build("recs")
     wd = vlib.scratch("verif-recs-")
@@ -456,7 +458,7 @@ def run(prop, tier, seed, replay=None):
         raise vlib.Inconclusive("records of unknown kind %s" % sorted(unknown))
     ncan = 0
     t1 = time.time()
-    if not replay:
+    if not replay and not fast:
         ncan = vacuity_guard(prop, lines, wd, v)
         log("  vacuity guard: %d falsified records, every one must be rejected by the reference  %.1fs" % (ncan, time.time() - t1))
     t1 = time.time()
@@ -482,7 +484,8 @@ def run(prop, tier, seed, replay=None):
             if prop not in props:
                 log("  note: finding %s belongs to %s, not to this property" % (key, props))
                 continue
-            name = "%s-%s" % (key.replace(":", "-").replace(".", "_"), hashlib.sha1(f["line"].encode()).hexdigest()[:8])
+            name = "%s-%s" % (key.replace(":", "-").replace(".", "_"), hashlib.sha1(json.dumps({a: b for a, b in rec.items() if a not in ("seg", "pmsg")},
+                                                                                     sort_keys=True).encode()).hexdigest()[:8])
             rp = vlib.save_replay(prop, name, {"trace.ndjson": "\n".join(f["lines"]) + "\n", "state.txt": f["state"]},
                                   dict(property=prop, fam=fam["fam"], seed=seed, tier=tier, n=n, event=rec.get("e"), key=key,
                                        finding=f["name"], record=rec, how="bin/check %s --replay <this dir>" % prop))
@@ -494,7 +497,8 @@ def run(prop, tier, seed, replay=None):
     cov.update(evaluations=len(lines), records_accepted=accepted, records_unvalidated=unvalidated, distinct_nontrivial=distinct,
                deviations_without_property_violation=deviations, panics_recorded=st["panics"], ops=st["ops"],
                vacuity_canaries_rejected=ncan, tlc_validation_runs=runs, rule=RULES[prop], exhaustive=False,
-               events=EVENT_PROPS[prop], invariants=[i for i, p in INV_PROPS.items() if prop in p], replay=bool(replay))
+               events=EVENT_PROPS[prop], invariants=[i for i, p in INV_PROPS.items() if prop in p], replay=bool(replay),
+               selftest_fast_mode=fast)
     log("  validated: %d/%d records accepted in %d segments, %d deviations, %d findings, %d unvalidated  (%d TLC runs, %.1fs)"
         % (accepted, len(lines), segs, deviations, sum(len(r["findings"]) for r in results), unvalidated, runs, time.time() - t1))
     if unvalidated and not v.violations and not v.inconclusive:
